@@ -427,6 +427,17 @@ impl Monitor for C06 {
                     } else {
                         out.push(viol("C06", "traded_event_missing", ev.idx, "no Traded event for an executed swap".into()));
                     }
+                    // two-hop legs (plain mints): each pool's vaults move exactly this leg's curve amounts - what a pool books as
+                    // received is what its vault received (in v2 the intermediate token goes vault to vault)
+                    if o.single.is_none() && o.plain && matches!(c.name(), "two_hop_swap" | "two_hop_swap_v2") {
+                        let (vin, vout) = if o.a_to_b { (o.pre.vault_a, o.pre.vault_b) } else { (o.pre.vault_b, o.pre.vault_a) };
+                        let (din, dout) = (bal_delta(ev_pre, ev_post, &vin), bal_delta(ev_pre, ev_post, &vout));
+                        let paid = (sums.sum_in + sums.sum_fee) as i128;
+                        cov.probe("two_hop_leg_vault_balances_checked");
+                        if vin != vout && (din != paid || -dout != sums.sum_out as i128) {
+                            out.push(viol("C06", "input_balance", ev.idx, format!("two-hop leg on pool {}: its vaults moved {:+} / {:+} but the leg's curve input + fee is {} and its output {}", o.whirlpool, din, dout, paid, sums.sum_out)));
+                        }
+                    }
                     // balances with transfer-fee mints: the vault's receipt (what arrives after the token program withheld its
                     // fee) is what splits into curve amount + protocol share + LP share; the vault sends exactly the curve output
                     if let (false, Some(b)) = (o.plain, &o.single) {
